@@ -211,6 +211,10 @@ static void check_unchanged(PTreeBaseNode *oldroot) {
 
 /* ---- foreach callback ---------------------------------------------------------------------------- */
 static int fe_n, fe_stop, fe_last, fe_stopped;
+/* value by which the callback asks to stop: pboolean is a plain int and 'TRUE' means any non-zero value (2, -1, 0x100 ...);
+ * 'continue' is exactly 0.  FE_STOPVAL n: fixed by the runner, else symbolic non-zero */
+static pboolean fe_stopval = TRUE;
+static int fe_stop_left = -1;   /* does the node at which the stop was requested have a left child? */
 static pboolean fe_cb(ppointer key, ppointer value, ppointer ud) {
   int r = RANK(key), x;
   VASSERT(ud == UDATA2, "foreach passes the user data through");
@@ -220,7 +224,7 @@ static pboolean fe_cb(ppointer key, ppointer value, ppointer ud) {
   for (x = 1; x <= NK; x++) if (x > fe_last && x < r) VASSERT(!exp_pres[x], "foreach: no stored key skipped");
   fe_last = r;
   fe_n++;
-  if (fe_n >= fe_stop) { fe_stopped = 1; return TRUE; }
+  if (fe_n >= fe_stop) { fe_stopped = 1; fe_stop_left = (r % 2 == 0 && r / 2 >= 1 && r / 2 <= N) ? pres[2 * sk_pos(r / 2)] : 0; return fe_stopval; }
   return FALSE;
 }
 
@@ -423,6 +427,12 @@ void harness(void) {
 
 #if OP == OP_FOREACH
   fe_stop = ND_RANGE(1, N + 1);
+#ifdef FE_STOPVAL
+  fe_stopval = (pboolean) (FE_STOPVAL);
+#else
+  fe_stopval = (pboolean) ND_INT();
+  VASSUME(fe_stopval != 0);
+#endif
   p_tree_foreach(tree, fe_cb, UDATA2);
   VASSERT(fe_n == (fe_stop < pre_n ? fe_stop : pre_n), "foreach visits exactly the min(stop, n) smallest keys");
   /* tree unchanged, pointer for pointer */
@@ -437,6 +447,11 @@ void harness(void) {
   VWITNESS("foreach done");
   witness_notifier_config();
   if (fe_stopped && fe_n < pre_n) VWITNESS("foreach stopped early");
+  if (fe_stopped && fe_n < pre_n && fe_stop_left == 1) VWITNESS("foreach stopped early at a node that has a left child (thread-return branch)");
+  if (fe_stopped && fe_n < pre_n && fe_stop_left == 0) VWITNESS("foreach stopped early at a node without a left child");
+#ifndef FE_STOPVAL
+  if (fe_stopped && fe_n < pre_n && fe_stopval != TRUE) VWITNESS("foreach stopped early by a non-zero value other than TRUE");
+#endif
   if (fe_stopped && fe_n < pre_n && fe_n >= 2) VWITNESS("foreach stopped early after >= 2 visits");
   if (!fe_stopped && pre_n == N) VWITNESS("foreach ran over the full skeleton");
 #endif
